@@ -137,6 +137,25 @@ func skeleton(body *ast.BlockStmt) []string {
 		}
 		return "?"
 	}
+	// logging and metrics are not part of a skeleton: calls on the logger (`logger.…`, `log.NewLogEntry()…`), on the statsd
+	// client, and the bookkeeping of their `tags` may come and go without any theorem noticing
+	var rootIdent func(e ast.Expr) (string, bool)
+	rootIdent = func(e ast.Expr) (string, bool) {
+		switch t := e.(type) {
+		case *ast.Ident:
+			return t.Name, false
+		case *ast.SelectorExpr:
+			r, st := rootIdent(t.X)
+			return r, st || t.Sel.Name == "StatsdClient" || t.Sel.Name == "statsdClient" || t.Sel.Name == "metrics"
+		case *ast.CallExpr:
+			return rootIdent(t.Fun)
+		}
+		return "", false
+	}
+	observability := func(c *ast.CallExpr) bool {
+		r, statsd := rootIdent(c.Fun)
+		return statsd || r == "logger" || r == "log"
+	}
 	expr = func(e ast.Node) {
 		if e == nil {
 			return
@@ -151,6 +170,9 @@ func skeleton(body *ast.BlockStmt) []string {
 				toks = append(toks, "}")
 				return false
 			case *ast.CallExpr:
+				if observability(x) {
+					return false
+				}
 				// arguments first (evaluation order), then the call itself
 				for _, a := range x.Args {
 					expr(a)
@@ -281,6 +303,15 @@ func skeleton(body *ast.BlockStmt) []string {
 		case *ast.ExprStmt:
 			expr(x.X)
 		case *ast.AssignStmt:
+			onlyBookkeeping := len(x.Lhs) > 0
+			for _, l := range x.Lhs {
+				if id, ok := l.(*ast.Ident); !ok || (id.Name != "tags" && id.Name != "logger") {
+					onlyBookkeeping = false
+				}
+			}
+			if onlyBookkeeping {
+				return
+			}
 			for _, r := range x.Rhs {
 				expr(r)
 			}
